@@ -768,6 +768,31 @@ Proof. unfold sumR. induction l as [|c t IH]; cbn; [ring|]. rewrite <- IH. ring.
    freight mass, bearing and drag area are plain per-car sums; the rolling and Davis-B coefficients
    are the car-mass-weighted means over the TOWED mass (the code's choice: the locomotives' mass
    enters the weight but not the average) *)
+Theorem aggregate_ov_defs ov (cars : list (Car (F:=R))) total loco_mass :
+  let t := aggregate_ov ov cars total loco_mass in
+  let towed := match ov with Some m => m | None => sumR (map (fun c => (car_mass_base c + car_mass_freight c) * car_n c) cars) end in
+  tp_mass_static t = towed + loco_mass /\
+  tp_length t = sumR (map (fun c => car_length c * car_n c) cars) /\
+  tp_mass_rot t = sumR (map (fun c => car_mass_rot_per_axle c * car_n c * car_axles c) cars) /\
+  tp_mass_freight t = sumR (map (fun c => car_mass_freight c * car_n c) cars) /\
+  rp_bearing (tp_rp t) = sumR (map (fun c => car_bearing_per_axle c * car_axles c * car_n c) cars) /\
+  rp_cd_area (tp_rp t) = sumR (map (fun c => car_cd_area c * car_n c) cars) /\
+  (towed <> 0 ->
+   rp_rolling (tp_rp t) * towed =
+     sumR (map (fun c => car_rolling_ratio c * ((car_mass_base c + car_mass_freight c) * car_n c)) cars) /\
+   rp_davis_b (tp_rp t) * towed =
+     sumR (map (fun c => car_davis_b c * ((car_mass_base c + car_mass_freight c) * car_n c)) cars)).
+Proof.
+  cbv zeta. unfold aggregate_ov, fsum, car_mass. cbn [tp_mass_static tp_length tp_mass_rot tp_mass_freight
+    tp_rp rp_bearing rp_cd_area rp_rolling rp_davis_b]. numR.
+  rewrite !fsum_sum.
+  rewrite (sumR_ext (fun c : Car => (car_mass_base c + car_mass_freight c) * car_n c * 1)
+                    (fun c : Car => (car_mass_base c + car_mass_freight c) * car_n c)) by (intros; ring).
+  set (tw := sumR (map (fun c : Car => (car_mass_base c + car_mass_freight c) * car_n c) cars)).
+  destruct ov as [m|]; repeat split; try lra.
+  all: rewrite Rplus_0_l, sumR_mult_r; apply sumR_ext; intros c; field; exact H.
+Qed.
+
 Theorem aggregate_defs (cars : list (Car (F:=R))) total loco_mass :
   let t := aggregate cars total loco_mass in
   let towed := sumR (map (fun c => (car_mass_base c + car_mass_freight c) * car_n c) cars) in
@@ -782,14 +807,4 @@ Theorem aggregate_defs (cars : list (Car (F:=R))) total loco_mass :
      sumR (map (fun c => car_rolling_ratio c * ((car_mass_base c + car_mass_freight c) * car_n c)) cars) /\
    rp_davis_b (tp_rp t) * towed =
      sumR (map (fun c => car_davis_b c * ((car_mass_base c + car_mass_freight c) * car_n c)) cars)).
-Proof.
-  cbv zeta. unfold aggregate, fsum, car_mass. cbn [tp_mass_static tp_length tp_mass_rot tp_mass_freight
-    tp_rp rp_bearing rp_cd_area rp_rolling rp_davis_b]. numR.
-  rewrite !fsum_sum.
-  rewrite (sumR_ext (fun c : Car => (car_mass_base c + car_mass_freight c) * car_n c * 1)
-                    (fun c : Car => (car_mass_base c + car_mass_freight c) * car_n c)) by (intros; ring).
-  set (towed := sumR (map (fun c : Car => (car_mass_base c + car_mass_freight c) * car_n c) cars)).
-  repeat split; try lra.
-  - rewrite Rplus_0_l, sumR_mult_r. apply sumR_ext. intros c. field. exact H.
-  - rewrite Rplus_0_l, sumR_mult_r. apply sumR_ext. intros c. field. exact H.
-Qed.
+Proof. exact (aggregate_ov_defs None cars total loco_mass). Qed.
